@@ -891,3 +891,52 @@ def residue_compare(ctx):
                 ctx.violate('keys:' + name, '`%s` compares a residue modulo p with a value that is not reduced (a residue plus / times something, without `%% p`)' % norm(c)[:80], c,
                             'a valid compressed public key whose x^3 mod p lies in [p-7, p-1] (the points with y = 1 or y = p-1) is refused: the verifier raises for a triple standard ECDSA accepts')
     ctx.floor(n, 1, 'comparisons of residues')
+
+
+@PROP.obligation('C04.address-hash-by-script-type', canaries=[
+    mut.Canary('the cached HASH160 of the key is handed to every address type', 'keys', lambda tree: _hand_over_hash160(tree)),
+])
+def address_hash_by_script_type(ctx):
+    """Which hash of the public key an address commits to follows the script type: HASH160 for p2pkh / p2wpkh / p2sh_p2wpkh, SHA256 for
+    p2wsh / p2sh_p2wsh / p2tr. Address.__init__ makes that choice when it is given the key bytes and NO hashed_data. Key.address(),
+    evaluated with a symbolic script type, builds its Address from the key bytes: if it hands over a precomputed hash (the cached
+    HASH160 of the key), that hash becomes the witness program of a p2wsh / p2tr address as well - key.address(script_type='p2wsh')
+    returns the key's P2WPKH address once key.hash160 has been read."""
+    q = 'keys:Key.address'
+    fn = ctx.repo.func(q)
+    built = []
+
+    def h_address(interp, args, kwargs, st, node):
+        built.append((list(st.pc), {k: (term(v) if isinstance(v, S) else v) for k, v in kwargs.items()}, [term(a) if isinstance(a, S) else a for a in args], node))
+        return NotImplemented
+    n = 0
+    for stype, enc in (('p2wsh', 'bech32'), ('p2tr', 'bech32'), ('p2sh_p2wsh', 'base58')):
+        del built[:]
+        it = Interp(ctx.repo, 'keys', hooks={'Address': h_address}, self_cls='keys:Key')
+        try:
+            it.run_function(fn, {'compressed': S(('var', 'compressed')), 'prefix': S(('var', 'prefix')), 'script_type': stype, 'encoding': enc})
+        except AnalysisError as e:
+            ctx.undecided('Key.address(script_type=%r) not evaluable: %s' % (stype, str(e)[:100]))
+        if not built:
+            ctx.undecided('Key.address(script_type=%r): construction of the Address object not reached' % stype)
+        for pc, kw, args, node in built:
+            n += 1
+            hd = kw.get('hashed_data', args[1] if len(args) > 1 else None)
+            ctx.saw('script_type=%s: Address(<key bytes>, ...) with hashed_data=%s' % (stype, show(hd)[:60] if isinstance(hd, tuple) else hd))
+            if hd not in (None, b'', ''):
+                ctx.violate(q, 'for script type %s Key.address hands the Address a precomputed hash (`%s`): Address.__init__ no longer takes SHA256 of the key' % (stype, show(hd)[:70] if isinstance(hd, tuple) else hd), node,
+                            "after k.hash160 (or as_dict(), a fingerprint, a child derivation) k.address(script_type='p2wsh', encoding='bech32') is the key's P2WPKH address bc1qw508d6q...: a 20-byte program where SHA256 of the key is required")
+                break
+    ctx.floor(n, 3, 'Address constructions')
+
+
+def _hand_over_hash160(tree):
+    for cls in tree.body:
+        if isinstance(cls, ast.ClassDef) and cls.name == 'Key':
+            for f in cls.body:
+                if isinstance(f, ast.FunctionDef) and f.name == 'address':
+                    for c in ast.walk(f):
+                        if isinstance(c, ast.Call) and norm(c.func) == 'Address' and not any(k.arg == 'hashed_data' for k in c.keywords):
+                            c.keywords.append(ast.keyword(arg='hashed_data', value=ast.parse('self._hash160', mode='eval').body))
+                            return True
+    return False
